@@ -23,6 +23,9 @@ enum Step {
     RetractDerivedInRete,
     /// reconfigure the engine (set_config): from here on the fresh engine is built with this configuration
     SetConfig(Cfg),
+    /// the same kind of query through the second entry point: `GRLQueryExecutor::execute` with a GRLQuery that carries
+    /// its own configuration (the executor applies it to the engine before asking)
+    QueryViaExecutor(GoalQ, u8, Cfg),
 }
 
 fn spell(g: &GoalQ, style: u8) -> String {
@@ -87,6 +90,22 @@ fn gen_history(s: &mut Src, kb: &Kb, cfg0: &Cfg) -> Vec<Step> {
         }
         steps.insert(pos, Step::SetConfig(c));
     }
+    // one history in three asks one of its queries through GRLQueryExecutor (drawn last)
+    if s.chance(1, 3) {
+        let qs: Vec<usize> = steps.iter().enumerate().filter(|(_, x)| matches!(x, Step::Query(..))).map(|(i, _)| i).collect();
+        if !qs.is_empty() {
+            let i = qs[s.below(qs.len())];
+            let mut c = cfg0.clone();
+            match s.below(3) {
+                0 => {}
+                1 => c.strat = if c.strat == Strat::Dfs { Strat::Bfs } else { Strat::Dfs },
+                _ => c.memo = !c.memo,
+            }
+            if let Step::Query(g, st) = steps[i].clone() {
+                steps[i] = Step::QueryViaExecutor(g, st, c);
+            }
+        }
+    }
     // always end with a query
     let g = if !goals.is_empty() && s.chance(2, 3) { goals[s.below(goals.len())].clone() } else { gen_goal(s, kb) };
     let style = [0u8, 0, 1, 2][s.below(4)];
@@ -115,6 +134,7 @@ pub fn run(s: &mut Src, ctx: &mut Ctx) -> Verdict {
         Step::FreshEqualStore => "fresh-equal-store".to_string(),
         Step::RetractDerivedInRete => "retract-derived-in-rete".to_string(),
         Step::SetConfig(c) => format!("set_config({:?})", c),
+        Step::QueryViaExecutor(g, st, c) => format!("GRLQueryExecutor::execute(goal `{}`, {:?})", spell(g, *st), c),
     }).collect::<Vec<_>>().join("; ")));
     let cfg_initial = cfg.clone();
     let mut cfg = cfg;
@@ -151,7 +171,17 @@ pub fn run(s: &mut Src, ctx: &mut Ctx) -> Verdict {
                     }
                 }
             }
-            Step::Query(g, st) => {
+            Step::Query(..) | Step::QueryViaExecutor(..) => {
+                let (g, st, via) = match step {
+                    Step::Query(g, st) => (g, st, None),
+                    Step::QueryViaExecutor(g, st, c) => (g, st, Some(c.clone())),
+                    _ => unreachable!(),
+                };
+                if let Some(c) = &via {
+                    // the executor applies the query's configuration to the engine before asking
+                    cfg = c.clone();
+                    reconfigured = true;
+                }
                 queries += 1;
                 let before = from_facts(&facts);
                 let text = spell(g, *st);
@@ -159,7 +189,7 @@ pub fn run(s: &mut Src, ctx: &mut Ctx) -> Verdict {
                 let fresh_answer = {
                     let mut fe = build_engine(&kb, &cfg);
                     let mut ff = to_facts(&before);
-                    let fr = if with_rete { Some(Arc::new(Mutex::new(IncrementalEngine::new()))) } else { None };
+                    let fr = if with_rete && via.is_none() { Some(Arc::new(Mutex::new(IncrementalEngine::new()))) } else { None };
                     match catch(|| fe.query_with_rete_engine(&text, &mut ff, fr)) {
                         Ok(Ok(r)) => r.provable,
                         _ => {
@@ -168,7 +198,20 @@ pub fn run(s: &mut Src, ctx: &mut Ctx) -> Verdict {
                         }
                     }
                 };
-                let answer = match catch(|| engine.query_with_rete_engine(&text, &mut facts, rete.clone())) {
+                let asked_answer = match &via {
+                    None => catch(|| engine.query_with_rete_engine(&text, &mut facts, rete.clone())),
+                    Some(c) => {
+                        use rust_rule_engine::backward::grl_query::{GRLQuery, GRLQueryExecutor, GRLSearchStrategy};
+                        let q = GRLQuery::new("q".to_string(), text.clone())
+                            .with_strategy(if c.strat == Strat::Bfs { GRLSearchStrategy::BreadthFirst } else { GRLSearchStrategy::DepthFirst })
+                            .with_max_depth(c.max_depth)
+                            .with_max_solutions(c.max_solutions)
+                            .with_memoization(c.memo);
+                        ctx.label("asked-through-GRLQueryExecutor");
+                        catch(|| GRLQueryExecutor::execute(&q, &mut engine, &mut facts))
+                    }
+                };
+                let answer = match asked_answer {
                     Ok(Ok(r)) => r.provable,
                     _ => {
                         ctx.label("engine-error");
@@ -222,7 +265,7 @@ pub fn property() -> Property {
     Property {
         id: "C11",
         level: "exploration",
-        rule: "generated: one BackwardEngine (memoisation on 3/4, DFS or BFS, max_depth 0..4, max_solutions 1/3, optionally an attached IncrementalEngine) over a Horn KB of 1-5 rules; histories of 3-7 steps: query (half of them repeat an earlier goal, in one of three spellings: canonical, no blanks, doubled blanks), assert/change a base fact (including type twins: the same text as a string instead of a number/boolean), remove a base or derived fact, hand in a brand-new equal store, retract all logical facts in the attached RETE engine, and in one history of three a set_config call (other strategy / max_solutions / memo flag, mostly the same max_depth) after which the fresh engine is built with the new configuration; always ending with a query. Oracle: for every query, provable equals the answer of a freshly constructed engine (same KB, same config, fresh RETE engine if attached) on a deep copy of the facts as they were just before the query. Non-trivial: a goal is repeated after the facts changed so that the fresh engine's answer flips, or repeated on an equal store; distinct by (KB, store, config, history).",
+        rule: "generated: one BackwardEngine (memoisation on 3/4, DFS or BFS, max_depth 0..4, max_solutions 1/3, optionally an attached IncrementalEngine) over a Horn KB of 1-5 rules; histories of 3-7 steps: query (half of them repeat an earlier goal, in one of three spellings: canonical, no blanks, doubled blanks), assert/change a base fact (including type twins: the same text as a string instead of a number/boolean), remove a base or derived fact, hand in a brand-new equal store, retract all logical facts in the attached RETE engine, in one history of three one query asked through GRLQueryExecutor::execute (a GRLQuery carrying its own configuration), and in one history of three a set_config call (other strategy / max_solutions / memo flag, mostly the same max_depth) after which the fresh engine is built with the new configuration; always ending with a query. Oracle: for every query, provable equals the answer of a freshly constructed engine (same KB, same config, fresh RETE engine if attached) on a deep copy of the facts as they were just before the query. Non-trivial: a goal is repeated after the facts changed so that the fresh engine's answer flips, or repeated on an equal store; distinct by (KB, store, config, history).",
         assumptions: vec!["the fresh engine is the same code without history: the oracle isolates exactly the dependence on history; engine errors/panics are counted, not judged".into()],
         parts: vec![Part { name: "random", run, quick: Budget::Random { cases: 400_000, bytes: 400 }, thorough: Budget::Random { cases: 10_000_000, bytes: 400 }, min_nontrivial_pct: 15 }],
         watchdog: true,
